@@ -67,7 +67,7 @@ Definition ex_client : client :=
   {| cl_public := false; cl_grants := ["authorization_code"; "refresh_token"]; cl_scopes := ["offline"; "photos"]; cl_aud := []; cl_life := None |}.
 Definition ex_authz : authz :=
   {| az_rtype := RCode; az_client := 0; az_redirect := ""; az_scopes := ["offline"; "photos"]; az_granted := ["offline"; "photos"];
-     az_aud := []; az_gaud := []; az_subject := "alice"; az_challenge := ""; az_method := "" |}.
+     az_aud := []; az_gaud := []; az_subject := "alice"; az_challenge := ""; az_method := ""; az_mode := "" |}.
 Definition cr i := {| p_ref := CRef i; p_tampered := false |}.
 Definition ex_history : list op :=
   [OAuthorize ex_authz; ORedeem (Some 0) (cr 0) "" "" "" []; ORefresh (Some 0) (cr 2) []; OAdvance 1000%Z].
